@@ -1467,7 +1467,7 @@ def rule_dep(ctx):
 
 SPECS = [
     RuleSpec("C10.R1", rule_r1, 5, "A6", "results are returned in query order (permutation algebra); descending sweep for a decrementing cursor"),
-    RuleSpec("C10.R2", rule_r2, 2, "A5", "tempo changes are sorted by the integration key before consecutive pairing"),
+    RuleSpec("C10.R2", rule_r2, 2, "A5", "tempo changes are sorted by the integration key before consecutive pairing; the map's own list is the one sorted (in place) before it is read by position"),
     RuleSpec("C10.R3", rule_r3, 3, "A7", "Snap order is lexicographic on (measure, beat): truth table over 9 sign patterns"),
     RuleSpec("C10.R4", rule_r4, 10, "A7", "integration shapes: beat/measure length, position difference at the earlier change's tempo, ms->position split"),
     RuleSpec("C10.R5", rule_r5, 3, "A7", "snapping chooses the nearer neighbour of a sorted table"),
